@@ -123,6 +123,20 @@ def bc(a, b):
     return [(a[i % len(a)], b[i % len(b)]) for i in range(n)]
 
 
+def conc_tol(v, tag=""):
+    """tolerance of CONCRETE runs (replays and witness validation on the real float code): the property's 2^-52 cycles absolute
+    for results up to 2^52 (the operands are the exact rationals of the floats used, so this is the accuracy claim itself, on the
+    inputs tried); the remainder of // % and larger results keep a relative 1e-9"""
+    if tag == "" and abs(v) <= 2**52:
+        return Fraction(1, 2**52)
+    return Fraction(1, 10**9) * (1 + abs(v))
+
+
+_HARD_I = [12345, 2**40 + 12345, -(2**45) + 7, 3]
+_HARD_F = [Fraction(3, 10), Fraction(-41, 100), Fraction(1, 7), Fraction(-49999, 100000)]
+_HARD_W = [Fraction(999), Fraction(37), Fraction(7, 10), Fraction(-3, 2), Fraction(1, 3), Fraction(-857)]        # (|w| < 1000 in the units)
+
+
 class Arith(Unit):
     functions = ("pulsarbat.pulsar.phase:Phase.__new__", "pulsarbat.pulsar.phase:Phase.from_angles", "pulsarbat.pulsar.phase:day_frac",
                  "pulsarbat.pulsar.phase:Phase.__array_ufunc__", "pulsarbat.pulsar.phase:check_imaginary", "pulsarbat.pulsar.phase:Phase.__getitem__")
@@ -208,7 +222,7 @@ class Arith(Unit):
                 bad_i.append(z3.BoolVal(Fraction(ev(ri)).denominator != 1))
                 bad_f.append(z3.BoolVal(abs(ev(rf)) > Fraction(1, 2)))
                 wv = ev(w)
-                bad_v.append(z3.BoolVal(abs(ev(ri) + ev(rf) - wv) > Fraction(1, 10**9) * (1 + abs(wv))))
+                bad_v.append(z3.BoolVal(abs(ev(ri) + ev(rf) - wv) > conc_tol(wv, tag)))
         checks.append((tag + "count-is-integer", z3.Or(bad_i)))
         checks.append((tag + "fraction-within-half", z3.Or(bad_f)))
         checks.append((tag + "value", z3.Or(bad_v)))
@@ -287,7 +301,23 @@ class Arith(Unit):
         if self.op in ("floordiv", "mod", "divmod") and self.shape == ():
             return [{"pi0": 2**40, "pf0": Fraction(-1, 10**20), "w": Fraction(2)}, {"pi0": 3 * 2**30, "pf0": Fraction(-1, 10**18), "w": Fraction(3)},
                     {"pi0": -(2**35), "pf0": Fraction(1, 10**19), "w": Fraction(4)}, {"pi0": 2**40, "pf0": Fraction(-1, 10**20), "w": Fraction(1)}]
-        return []
+        if self.op in ("floordiv", "mod", "divmod", "sin", "cos"):
+            return []
+        # precision corner of the two-double chains: large counts, non-dyadic fractions, factors that are not powers of two.  The real
+        # float code must agree with the exact result to 2^-52 cycles on these inputs (concrete validation - sampling, not a proof)
+        out = []
+        for r in range(6):
+            cand = {}
+            for j, n in enumerate(sorted(ctx.inputs)):
+                c = ctx.inputs[n]
+                if c.sort() == z3.IntSort():
+                    cand[n] = _HARD_I[(r + j) % len(_HARD_I)]
+                elif n[1:2] == "f" and n[0] in "pq":
+                    cand[n] = _HARD_F[(r + j) % len(_HARD_F)]
+                else:
+                    cand[n] = _HARD_W[(r + 2 * j) % len(_HARD_W)]
+            out.append(cand)
+        return out
 
     def compare(self, S, args, out, CS, cargs, cout):
         a, b = isinstance(out, Raised), isinstance(cout, Raised)
@@ -307,7 +337,7 @@ class Arith(Unit):
             for (ri, rf), x, y in zip(ps, ci, cf):
                 sv = K.evalz(ri, CS.env, CS.ufs) + K.evalz(rf, CS.env, CS.ufs)
                 cv = Fraction(float(x)) + Fraction(float(y))
-                if abs(sv - cv) > Fraction(1, 10**9) * (1 + abs(cv)):
+                if abs(sv - cv) > conc_tol(cv, "" if self.op not in ("floordiv", "mod", "divmod") else "remainder:"):
                     pr.append(f"value {float(sv)} vs {float(cv)}")
             return pr
         return []
